@@ -701,6 +701,13 @@ def suite_sim(ctx, can_run_model, repeat=False):
     impl = vlib.run_impl(scs, "sim-impl", env=env)
     model = vlib.run_model(scs, "sim-model") if can_run_model else {}
     impl2 = vlib.run_impl(scs, "sim-impl2") if repeat else None
+    # C17: a system that also logs to a file must produce the same trace (apart from ProcessStateUpdated entries)
+    implf = None
+    if ctx.prop == "C17" and not repeat:
+        logdir = os.path.join(vlib.WORK, "simlogs")
+        os.makedirs(logdir, exist_ok=True)
+        implf = vlib.run_impl(scs[:150], "sim-logfile", env={"ASV_LOGFILE": logdir})
+        ctx.clauses.add("C17:log_file_trace")
     ctx.clauses.update(simmon.CLAUSES)
     for (sc, (rsc, feat, seed)) in zip(scs, raw):
         sid = sc[1]
@@ -722,6 +729,13 @@ def suite_sim(ctx, can_run_model, repeat=False):
         for clause, detail in simmon.monitor(sc, il):
             ctx.monitor_failures.append({"clause": clause, "detail": detail, "scenario": vlib.scenario_text(sc),
                                          "impl": il[:300], "seed": ctx.seed, "suite": "SIM"})
+        if implf is not None and sid in implf:
+            drop = lambda ls: [l for l in ls if l != "LOG ProcessStateUpdated" and not l.startswith(("STATE ", "PV "))]
+            dl = vlib.first_diff(drop(il), drop(implf[sid]))
+            if dl is not None:
+                ctx.monitor_failures.append({"clause": "C17:log_file_trace",
+                                             "detail": "System::with_log_file gives another history than System::new: %s" % (str(dl)[:300],),
+                                             "scenario": vlib.scenario_text(sc), "impl": implf[sid][:300], "seed": ctx.seed, "suite": "SIM"})
         if repeat:
             ctx.clauses.update(["C01:in_process_repeat", "C01:cross_process_repeat"])
             if any(l.startswith("REPEAT-DIFFERS") for l in il):
@@ -770,7 +784,7 @@ def suite_netsweep(ctx, can_run_model):
         for dupl in (0.0, 0.5):
             for corr in (0.0, 0.5):
                 for cutk, pre in [(c, p) for c in ("none", "dropout_src", "dropin_dst", "link", "reverse_link", "dropin_src",
-                                                   "partition", "disconnect_dst", "cut_then_reset") for p in (False, True)]:
+                                                   "partition", "disconnect_dst", "cut_then_reset", "reverse_then_partition") for p in (False, True)]:
                     pl = rng.choice(payloads)
                     msg = "%s %s" % (bstr(b"A"), bstr(pl))
                     # pre: the node pair has already carried traffic (process 2 on node 0 -> process 1 on node 1) when
@@ -794,7 +808,10 @@ def suite_netsweep(ctx, can_run_model):
                         if corr: rates.append("CORRUPTRATE %d" % f64_bits(corr))
                     cut = {"none": [], "dropout_src": ["DROPOUT 0"], "dropin_dst": ["DROPIN 1"], "link": ["DISABLELINK 0 1"],
                            "reverse_link": ["DISABLELINK 1 0"], "dropin_src": ["DROPIN 0"], "partition": ["PARTITION 1 0 1 1"],
-                           "disconnect_dst": ["DISCONNECT 1"], "cut_then_reset": ["DISABLELINK 0 1", "DROPOUT 0", "RESET"]}[cutk]
+                           "disconnect_dst": ["DISCONNECT 1"], "cut_then_reset": ["DISABLELINK 0 1", "DROPOUT 0", "RESET"],
+                           # one direction cut first, then a partition whose FIRST group holds the other end: both directions
+                           # of every cross pair must be cut afterwards
+                           "reverse_then_partition": ["DISABLELINK 1 0", "PARTITION 1 1 1 0"]}[cutk]
                     if pre:
                         lines.append("CB LOCAL 0 2 %s" % msg)
                     for o in rates + cut:
@@ -805,7 +822,7 @@ def suite_netsweep(ctx, can_run_model):
                     sc = ("MC", "ns%d-%d" % (ctx.seed, j), lines)
                     j += 1
                     scs.append(sc)
-                    is_cut = cutk in ("dropout_src", "dropin_dst", "link", "partition", "disconnect_dst")
+                    is_cut = cutk in ("dropout_src", "dropin_dst", "link", "partition", "disconnect_dst", "reverse_then_partition")
                     meta[sc[1]] = (drop, dupl, corr, is_cut, pl)
     impl = vlib.run_impl(scs, "ns-impl")
     model = vlib.run_model(scs, "ns-model") if can_run_model else {}
@@ -1409,6 +1426,23 @@ def suite_pred_sweep(ctx, can_run_model):
         lines.append("CB LOCAL 0 0 %s" % msgs[combo[0]])
         lines.append("RUN BFS FULL 0 %d" % gen_mc.FUEL)
         scs.append(("MC", "ps%d-%d" % (ctx.seed, j), lines))
+    # three interchangeable workers (processes 0, 1, 2) each with one message in flight to a sink, and each arming a
+    # timer: the first mentions of the listed processes occur in every order along the explored paths (symmetry-
+    # breaking prune proc_permutations, evaluated by ONE predicate instance on consecutive states)
+    for k, (st, vm) in enumerate([("BFS", "FULL"), ("DFS", "FULL"), ("BFS", "DISABLED"), ("DFS", "PARTIAL")]):
+        lines = ["NODE 0 0", "NODE 1 0"]
+        for w in range(3):
+            lines.append("PROC %d %d 1 0 0 1" % (w, w % 2))
+            lines.append("ROW %d 2 S 3 %s T 0 %d 1" % (w, msgs[w % len(msgs)], vlib.f64_bits(1.0 + w)))
+        lines.append("PROC 3 1 3 0 0 1")
+        lines.append("ROW 3 1 L %s" % msgs[0])
+        lines.append("NET 0 0 0 %d %d" % (vlib.f64_bits(1.0), vlib.f64_bits(1.0)))
+        lines += gen_mc.clock_lines([0.0], 16)
+        lines += ["PRED INV NONE", "PRED GOAL NOEVENTS", "PRED PRUNE DEPTHGT 6" if vm == "DISABLED" else "PRED PRUNE NONE", "PRED COLLECT NONE"]
+        for w in range(3):
+            lines.append("CB LOCAL %d %d %s" % (w % 2, w, msgs[1]))
+        lines.append("RUN %s %s 0 %d" % (st, vm, gen_mc.FUEL))
+        scs.append(("MC", "pw%d-%d" % (ctx.seed, k), lines))
     impl, parsed = mc_run_all(ctx, scs, can_run_model, "ps", with_ref=False)
     for sc in scs:
         runs = parsed[sc[1]]
